@@ -8,7 +8,7 @@
 #endif
 
 struct msa;
-EXTERN int GCGMultchecksum(struct msa* msa);
+EXTERN int GCGMultchecksum(struct msa* msa, int len);
 EXTERN int GCGchecksum(char *seq, int len);
 
 #undef MSA_MISC_IMPORT
